@@ -23,12 +23,14 @@ TRUSTED = [
     "(cofactor-2 branch), eb_mul_sim_trick / inter (ordinary) / joint",
     "class A-partial (value-level models over naturals-as-GF(2)[z] mirroring the C loops - halving loops, exits, swap, the comparison by "
     "digit count and top digit, the degree-difference shifts and the final conditional addition of f of fb_inv_exgcd - executed as the model "
-    "column on every presented line; proved: zero is reported and WHATEVER the model returns satisfies a*c = 1 (binar / almos: and is reduced), "
-    "Props.C16.fb_inv_binar_partial / fb_inv_almos_partial / fb_inv_exgcd_partial; NOT proved: that the loops end within the fuel "
-    "2(bitLen a + bitLen f) + 2 - a line on which a model runs out of fuel is reported as a model difference - and, for exgcd, that the "
-    "returned cofactor has degree < m; the digit arrays, lengths lu / lv / l1 / l2 and carries of the C code are not mirrored): "
+    "column on every presented line; proved: zero is reported and WHATEVER the model returns is reduced, satisfies a*c = 1 and hence equals the specification's inverse, "
+    "Props.C16.fb_inv_binar_partial / fb_inv_almos_partial / fb_inv_exgcd_partial / fb_inv_euclid_value; NOT proved: that the loops end "
+    "within the fuel 2(bitLen a + bitLen f) + 2 - a line on which a model runs out of fuel is reported as a model difference; the digit arrays, lengths lu / lv / l1 / l2 and carries of the C code are not mirrored): "
     "fb_inv_binar, fb_inv_almos, fb_inv_exgcd",
-    "class C (compared with the specification on the presented lines only): fb_inv_bruch / ctaia / lower, "
+    "executed models without a theorem (Model/FbInv.lean invBruch / invCtaia: the fixed 2m / 2m - 1 passes, the tests of coefficient m, the "
+    "delta / d bookkeeping, the masked digit loop with its update order, shifts truncated to the digit array; model column on every line, "
+    "correctness only through the defining equation a*c = 1 checked on the presented lines): fb_inv_bruch, fb_inv_ctaia",
+    "class C (compared with the specification on the presented lines only): fb_inv_lower, "
     "fb_sqrn_low (shift-and-mask spreading), fb_rdc_basic, fb_mul_dig / fb_mul1_low / fb_rdc1_low, fb_exp_basic / slide / monty, fb_read_bin / "
     "fb_write_bin, fb2_mul / fb2_sqr / fb2_inv / fb2_slv / fb2_mul_nor, eb_mul_halve on the cofactor-4 (Koblitz) curve, eb_mul_fix_combd, "
     "the Koblitz eb_mul_sim_inter / eb_mul_sim_gen, eb_mul_dig, the y-recovery at the end of eb_mul_lodah and the randomisation of its projective start values (the Mdouble / Madd formulas are proved in Lemmas/EbLadder.lean, the ladder is executed at group level), "
